@@ -11,11 +11,14 @@ from mc import gen
 
 
 def layout_from(d):
-    return gen.Layout(tuple(d["ref_lens"]), d["pattern"], d.get("scale", 1))
+    return gen.Layout(tuple(d["ref_lens"]), d["pattern"], d.get("scale", 1), second_ref=tuple(d["second_ref"]) if d.get("second_ref") else None, second_name=d.get("second_name", "chr2"))
 
 
 def layout_desc(L):
-    return {"ref_lens": list(L.ref_lens), "pattern": L.pattern, "scale": L.scale}
+    d = {"ref_lens": list(L.ref_lens), "pattern": L.pattern, "scale": L.scale}
+    if L.second_ref:
+        d["second_ref"], d["second_name"] = list(L.second_ref), L.second_name
+    return d
 
 
 def view_convert(scratch, gaf_text, gfa_path, fmt, tag="x"):
